@@ -503,11 +503,20 @@ func Batch(o Opts) int {
 		// oracle fires first); the file then records what the fresh process saw.
 		oracleRe := regexp.MustCompile(`REPLAY property=\S+ oracle=(\S+) `)
 		confirm := func() (string, bool) {
-			cmd := exec.Command(o.Self, "-replay", replayPath, "-known", o.Known)
-			cmd.Env = os.Environ()
-			outb, _ := cmd.CombinedOutput()
-			if m := oracleRe.FindStringSubmatch(string(outb)); m != nil && strings.Contains(string(outb), "VIOLATION property=") {
-				return m[1], true
+			// a deterministic failure reproduces at the first attempt; the further
+			// attempts only matter when the library itself starts goroutines the
+			// simulator does not schedule and the failure depends on their timing
+			var outb []byte
+			for attempt := 0; attempt < 4; attempt++ {
+				cmd := exec.Command(o.Self, "-replay", replayPath, "-known", o.Known)
+				cmd.Env = os.Environ()
+				outb, _ = cmd.CombinedOutput()
+				if m := oracleRe.FindStringSubmatch(string(outb)); m != nil && strings.Contains(string(outb), "VIOLATION property=") {
+					if attempt > 0 {
+						fmt.Printf("qsim: the replay failed only at attempt %d: the failure depends on something the simulator does not control\n", attempt+1)
+					}
+					return m[1], true
+				}
 			}
 			return string(outb), false
 		}
